@@ -15,3 +15,4 @@ import FpgoVerif.Props.C01
 #print axioms FpgoVerif.C01.C01_gen_someDef_methods
 #print axioms FpgoVerif.C01.C01_gen_none_overrides
 #print axioms FpgoVerif.C01.C01_gen_conversions_guarded
+#print axioms FpgoVerif.C01.C01_observe_spec
